@@ -153,7 +153,8 @@ func Discharge(file string, timeoutS int, seed int, retry bool, all bool) []Solv
 				decided = true
 			}
 		}
-		if !decided {
+		if !decided && os.Getenv("GOVC_EXPECT_VIOLATION") == "" {
+			// (skipped when the run is a must-fail self-test: there an undecided obligation is the expected outcome)
 			runs = append(runs, race(file, timeoutS*15, seed+104729, false)...)
 		}
 	}
